@@ -91,8 +91,25 @@ theorem append_evolves {s : St} {ra : Nat} {r : Rollapp} {new : SInfo} (hn : Ids
       rw [List.getElem?_append_left (getElem?_lt hst)]; exact hst, rfl⟩
   · exact ⟨r0, mem_setRa_of_ne hr0 h0, rfl, fun i st hst _ => ⟨st, hst, rfl⟩⟩
 
-theorem updateState_good {s s' : St} {m : UpdMsg} (e : updateState s m = .ok s') : Good s s' := by
-  intro hc hi
+theorem append_back {s : St} {r : Rollapp} {new : SInfo} (hnf : new.finalized = false) (hr : r ∈ s.ras) :
+    Back s (setRa s { r with states := r.states ++ [new] }) := by
+  intro r2 hr2 i st' hst' hf
+  rcases mem_setRa_strong hr2 with ⟨hm, _⟩ | heq
+  · exact ⟨r2, hm, rfl, st', hst', rfl⟩
+  · subst heq
+    refine ⟨r, hr, rfl, ?_⟩
+    have hst' : (r.states ++ [new])[i]? = some st' := hst'
+    by_cases hlt : i < r.states.length
+    · rw [List.getElem?_append_left hlt] at hst'; exact ⟨st', hst', rfl⟩
+    · have hi2 := getElem?_lt hst'
+      simp at hi2
+      have : i = r.states.length := by omega
+      subst this
+      simp at hst'; subst hst'
+      rw [hnf] at hf; cases hf
+
+theorem updateState_full {s s' : St} {m : UpdMsg} (e : updateState s m = .ok s') (hc : ChainAll s) (hi : FinInv s) :
+    (ChainAll s' ∧ FinInv s' ∧ Evolves s s' ∧ s'.p = s.p) ∧ Back s s' := by
   have hc' := updateState_chain hc e
   unfold updateState at e
   split at e
@@ -170,8 +187,13 @@ theorem updateState_good {s s' : St} {m : UpdMsg} (e : updateState s m = .ok s')
                     have hc4 : ChainAll { s3 with queue := queueAppend s3.queue s3.h m.ra (r.states.length + 1),
                                                    seqH := addSeqHeights s3.seqH m.sender m.bds } := p3.chain.ras_eq rfl
                     obtain ⟨_, s45⟩ := indicateLiveness_fs hg4 (hi4.pre hc4)
-                    refine ⟨hc', hi4.same s45, ?_, s45.p.trans hp3⟩
-                    exact (append_evolves hi.nodup hg).trans (s23.evolves.trans
-                      ((Evolves.of_ras_eq (s := s3) rfl).trans s45.evolves))
+                    refine ⟨⟨hc', hi4.same s45, ?_, s45.p.trans hp3⟩, ?_⟩
+                    · exact (append_evolves hi.nodup hg).trans (s23.evolves.trans
+                        ((Evolves.of_ras_eq (s := s3) rfl).trans s45.evolves))
+                    · exact (append_back rfl (getRa_mem hg)).trans (s23.back.trans
+                        ((Back.of_ras_eq (s := s3) rfl).trans s45.back))
+
+theorem updateState_good {s s' : St} {m : UpdMsg} (e : updateState s m = .ok s') : Good s s' :=
+  fun hc hi => (updateState_full e hc hi).1
 
 end DymVerif.Core
